@@ -6,8 +6,9 @@ import os
 HERE = os.path.dirname(os.path.dirname(os.path.abspath(__file__)))
 ALL = [f"C{i:02d}" for i in range(1, 21)]
 
-COMMON_NOTE = ("Trusted: Coq 8.16.1 kernel + vm_compute (no native_compute); extraction with ExtrOcamlBasic only and "
-               "ocaml/driver.ml+entries.ml; the Python harness (generators, canonicalisation); tools/gen_consts.py. "
+COMMON_NOTE = ("Trusted: Coq 8.16.1 kernel + vm_compute (no native_compute); extraction with ExtrOcamlBasic plus ONE directive, "
+               "`Extract Inlined Constant rev => \"List.rev\"` (Extract/Extract.v), ocaml/driver.ml+entries.ml (zarith for the "
+               "decimal I/O of N / Z); the Python harness (generators, canonicalisation); tools/gen_consts.py. "
                "The theorem is about a hand-written Gallina model; the tie to /repo is the correspondence check "
                "(model and implementation run on the same generated inputs on every run, scratch build of the "
                "working tree). ")
@@ -15,6 +16,22 @@ COMMON_NOTE = ("Trusted: Coq 8.16.1 kernel + vm_compute (no native_compute); ext
 AX = ("Axioms reported by Print Assumptions for the theorems that mention the binary32 BM25 kernel (via Flocq / Reals): "
       "ClassicalDedekindReals.sig_forall_dec, sig_not_dec, FunctionalExtensionality.functional_extensionality_dep, "
       "Classical_Prop.classic; the invariant theorems are closed under the global context.")
+
+def axiom_sentence(pid):
+    """what Print Assumptions printed for Props/<pid>.v in the last run of the check (read from its evidence file)"""
+    try:
+        ev = json.load(open(os.path.join(HERE, "evidence", pid + ".json")))
+    except Exception:
+        return ""
+    cov = ev.get("coverage", {})
+    ax = [t[len("axiom: "):] for t in cov.get("trusted_base", []) if t.startswith("axiom: ")]
+    closed, total = cov.get("closed_under_global_context", 0), (cov.get("print_assumptions_outputs") or cov.get("discharged", 0))
+    if not ax:
+        return f" Print Assumptions: all {total} statements of Props/{pid}.v are closed under the global context (no axioms)."
+    return (f" Print Assumptions for Props/{pid}.v: {closed} of {total} statements are closed under the global context; the "
+            "others (those that mention the binary32 / real-number BM25 model, via Flocq and Reals) depend on the standard "
+            "library's " + ", ".join(ax) + " and on nothing else (the gate fails on any axiom outside this list).")
+
 
 CLAIMED = {
     "C11": dict(
@@ -26,25 +43,22 @@ CLAIMED = {
               "the extracted model and the extracted spec on generated and exhaustive spec families; malformed "
               "specs must raise ValueError (oracle on the implementation side)."),
         design_ref="DESIGN.md 7 (C11)",
-        note=COMMON_NOTE + "Axioms (via Flocq/Reals): ClassicalDedekindReals.sig_forall_dec, sig_not_dec, "
-             "FunctionalExtensionality.functional_extensionality_dep, Classical_Prop.classic for the float lemma; "
-             "the exact-arithmetic theorems are closed under the global context. String-level parsing (strip, "
-             "regex, split, int) is modelled by the harness printer, not in Coq.",
+        note=COMMON_NOTE + "String-level parsing (strip, regex, split, int) is modelled by the harness printer, not in Coq.",
         technique="Coq proof (induction on clause list + finite float grid by vm_compute) + model/impl correspondence",
     ),
 
     "C12": dict(
         category="proof",
         text=("Per-kernel theorems (Props/C12.v, all closed under the global context): on masked-sorted inputs of any "
-              "length < 2^62 the line-level models of intersect (drop / keep), merge, merge with drop, sort_merge_counts, "
-              "unique, binary and galloping search, popcount_reduce_at, key_sum_over, popcount64_reduce and as_dense "
-              "return exactly their set-theoretic specs (no fault, no fuel exhaustion). adjacent and the fused kernel are "
-              "checked three-way (implementation / extracted model / extracted spec) until their proof lands. "
+              "length < 2^62 the line-level models of intersect (drop / keep), adjacent, the fused intersect_with_adjacents, "
+              "merge, merge with drop, sort_merge_counts, unique, binary and galloping search, popcount_reduce_at, "
+              "key_sum_over, popcount64_reduce and as_dense return exactly their set-theoretic specs (no fault, no fuel "
+              "exhaustion). "
               "The check runs real kernels, models and specs on exhaustive small pairs, gallop-depth sweeps, random "
               "clustered arrays, strided views and adversarial neighbours."),
         design_ref="DESIGN.md 7 (C12)",
         note=COMMON_NOTE + "Strides are abstracted in the model (pointer = logical index); the harness passes strided and "
-             "reversed views of every array argument and requires the answer of the contiguous copy. No axioms.",
+             "reversed views of every array argument and requires the answer of the contiguous copy.",
         technique="Coq proof (loop invariants over fuelled line-level kernel models) + model/impl/spec correspondence",
     ),
     "C13": dict(
@@ -52,17 +66,23 @@ CLAIMED = {
         text=("Theorems (Props/C13.v, closed): for strictly increasing (key, position) pairs with key < 2^28 and position "
               "< 2^18 the numpy-level encoder model equals the grouping spec, decode(encode ps) = group_by_key ps, the "
               "encoding is canonical (strictly increasing headers, no empty word), per-key counts and distinct keys "
-              "computed on it equal those of the input. Slice-by-keys and boundary encoding are checked three-way until "
-              "their proofs land. The check runs the real RoaringishEncoder against model and spec on structured inputs."),
+              "computed on it equal those of the input; slice-by-keys returns the words of the requested keys "
+              "(C13_slice_by_keys) and the boundary encoding used by indexing equals the grouping spec (C13_boundaries). "
+              "The check runs the real RoaringishEncoder against model and spec on structured inputs."),
         design_ref="DESIGN.md 7 (C13)",
-        note=COMMON_NOTE + "Layout constants are regenerated from the source (Gen/SourceConsts.v). No axioms.",
+        note=COMMON_NOTE + "Layout constants are regenerated from the source (Gen/SourceConsts.v).",
         technique="Coq proof (induction over groups, permutation + sortedness for decode) + correspondence",
     ),
     "C14": dict(
         category="proof",
-        text=("kernel_safe theorems (Props/C14.v, closed): every access of every kernel model is a checked access and none "
+        text=("Safety theorems (Props/C14.v, one `C14_<kernel>` per kernel; closed under the global context except the BM25 "
+              "walk ones, which mention the binary32 model): every access of the line-level kernel models (intersect drop / "
+              "keep, adjacent, fused, merge, merge-drop, sort_merge_counts, unique, binary / galloping search, "
+              "popcount_reduce_at / key_sum_over, popcount64_reduce, popcount64, payload_slice, as_dense) is a checked access and "
+              "none "
               "faults, for ARBITRARY (unsorted) inputs, any mask, empty arrays, any search start/target, plus termination "
-              "within the models' fuel; one dead load (unique on an empty array with a shift) is proved to fault in the "
+              "within the models' fuel (popcount64 and payload_slice: line-level models in Kernels/Linear2.v, proved safe for any content of "
+              "the uninitialised result buffer and proved equal to the map / filter the correspondence check executes); one dead load (unique on an empty array with a shift) is proved to fault in the "
               "model and is accepted only because its value is unused. Also proved: the BM25 pointer walk is safe exactly "
               "when doc_lens is long enough and both call sites (fresh index, any chain of selections) satisfy that; "
               "the span search (_intersect_all + _span_freqs with its 512-slot table) never faults for arbitrary "
@@ -75,7 +95,7 @@ CLAIMED = {
               "of more than 64 terms, reversed / broadcast / record-field views): each must raise or be harmless."),
         design_ref="DESIGN.md 7 (C14)",
         note=COMMON_NOTE + "The theorem is about the model's accesses; real accesses are observed by ASan, not proved. "
-             "Compiler-introduced accesses, alignment and the allocator are outside the model. No axioms.",
+             "Compiler-introduced accesses, alignment and the allocator are outside the model.",
         technique="Coq proof (index-bound invariants on checked-access kernel models) + ASan/canary correspondence",
     ),
     "C01": dict(
@@ -90,7 +110,7 @@ CLAIMED = {
         design_ref="DESIGN.md 7 (C01)",
         note=COMMON_NOTE + "Tokenizer output is the model's input (token ids by any injection); pandas/numpy glue and "
              "thread scheduling are exercised, not modelled. Corpora of 2^28 rows or more are rejected by the repaired code "
-             "(ValueError) and excluded by wf_docs; they cannot be indexed within the check's time budget. No axioms.",
+             "(ValueError) and excluded by wf_docs; they cannot be indexed within the check's time budget.",
         technique="Coq proof (composition of codec, kernel and sorting lemmas) + three-way correspondence",
     ),
     "C02": dict(
@@ -102,10 +122,11 @@ CLAIMED = {
               "The average as a binary32 (C02_average_is_rounded_mean, Score/AvgLen.v): with fewer than 2^24 tokens and rows, "
               "every bracketing of the float32 additions of the lengths is exact and the average is the correctly rounded "
               "mean (relative error <= 2^-24; 0 iff the corpus is all empty); beyond 2^24 tokens numpy's float32 "
-              "accumulator rounds (a 2-ulp witness is recorded), which the check tolerates within 1e-6."),
+              "accumulator rounds (a 2-ulp witness is recorded): outside the theorem; the check's corpora stay below 2^24 tokens and "
+              "compare the float32 bit pattern exactly."),
         design_ref="DESIGN.md 7 (C02)",
         note=COMMON_NOTE + "That np.mean is a tree of float32 additions over the elements plus zero seeds is read off numpy's "
-             "source, not proved. Axioms: the Reals axioms via Flocq for the average theorem only; the counting theorems are closed.",
+             "source, not proved.",
         technique="Coq proof (diff-trick invariant, unique-keys lemma, batching lemma) + three-way correspondence",
     ),
     "C03": dict(
@@ -121,7 +142,7 @@ CLAIMED = {
               "(C03_exact_count_unless_one_repeated_term). Both sentences of the property are theorems. Check = real phrase "
               "search vs model vs spec / bounds oracle."),
         design_ref="DESIGN.md 7 (C03)",
-        note=COMMON_NOTE + "No axioms.",
+        note=COMMON_NOTE,
         technique="Coq proof (bigram-step refinement incl. the same-term case + chain induction) + three-way correspondence",
     ),
     "C05": dict(
@@ -131,7 +152,7 @@ CLAIMED = {
               "of the term (empty where absent), through slice-by-keys, bitwise decode and the per-row assembly; an unknown "
               "term raises TermMissingError. Check = real positions() vs model vs spec around every multiple of 18."),
         design_ref="DESIGN.md 7 (C05)",
-        note=COMMON_NOTE + "Offsets near 262143 are covered by the codec theorem (C13) and its check; no axioms.",
+        note=COMMON_NOTE + "Offsets near 262143 are covered by the codec theorem (C13) and its check.",
         technique="Coq proof (codec round trip + slice lemma + assembly) + three-way correspondence",
     ),
 
@@ -145,9 +166,10 @@ CLAIMED = {
               "(C04_default_accuracy); over R: legacy = (k1+1) * modern, positive denominator, idf > 0. The check compares real score() bit patterns with the model, and with a float64 "
               "evaluation on the spec's statistics; a recording similarity checks the statistics handed over."),
         design_ref="DESIGN.md 7 (C04)",
-        note=COMMON_NOTE + "Axioms (via Flocq/Reals): ClassicalDedekindReals.sig_forall_dec, sig_not_dec, "
-             "FunctionalExtensionality.functional_extensionality_dep, Classical_Prop.classic. numpy log (idf) is an input; "
-             "IEEE-754 conformance of the CPU (no FMA contraction) assumed.",
+        note=COMMON_NOTE + "numpy log (idf) is an input; IEEE-754 conformance of the CPU (no FMA contraction) assumed. NOT a theorem: "
+             "that the similarity is CALLED with exactly the term-frequency / doc-frequency / length / average / N statistics, "
+             "and that a phrase's idf is the sum over its terms (both decided by the check's recording similarity and by "
+             "C06_score_statistics for single terms).",
         technique="Coq proof over Flocq binary32 and R + bit-exact correspondence",
     ),
     "C08": dict(
@@ -166,7 +188,7 @@ CLAIMED = {
               "index, the model and the spec."),
         design_ref="DESIGN.md 7 (C08)",
         note=COMMON_NOTE + "The model assumes TermDict.add_term is atomic (now guaranteed by a lock in the repaired code); "
-             "ThreadPoolExecutor not modelled. No axioms.",
+             "ThreadPoolExecutor not modelled.",
         technique="Coq proof (encode_spec append lemma, slotting under permutations, arrival-order dictionary injectivity) + forced-schedule differential check",
     ),
     "C16": dict(
@@ -177,7 +199,7 @@ CLAIMED = {
               "entirely inside it, an empty range gives zeros, and unaligned bounds raise ValueError for terms of the "
               "corpus. Check = real termfreqs(min_posn, max_posn) vs model vs spec on documents spanning 6+ words."),
         design_ref="DESIGN.md 7 (C16)",
-        note=COMMON_NOTE + "An unknown term returns zeros before the bounds are validated (outside the property's domain). No axioms.",
+        note=COMMON_NOTE + "An unknown term returns zeros before the bounds are validated (outside the property's domain).",
         technique="Coq proof (bucket-filter lemma on the codec + chain theorem on filtered postings) + three-way correspondence",
     ),
 
@@ -189,11 +211,13 @@ CLAIMED = {
               "immediate repetitions included, EVERY position range) and BM25 scores (every query) equal the "
               "parent's answers re-indexed by the composed key, with the parent's corpus statistics (closed; score theorems "
               "carry the Reals axioms via Flocq); element access returns each row's distinct terms and length "
-              "(C06_element_access). NOT proved: pandas' key normalisation (replicated with numpy in the harness): decided "
+              "(C06_element_access). positions(term, key=k) is the positions theorem for the chain extended by k (the "
+              "identification is checked on the real call). NOT proved: pandas' key normalisation (replicated with numpy in "
+              "the harness), and that copy() / take() / DataFrame operations reduce to a selection by positions: decided "
               "three-way by the check (real arr[key] / take / copy / DataFrame ops followed by every query kind vs model "
               "vs spec; slices of every step sign, masks, int arrays sorted/unsorted/duplicate/negative, depth 1..3)."),
         design_ref="DESIGN.md 7 (C06)",
-        note=COMMON_NOTE + "pandas key normalisation replicated with numpy in the harness. " + AX,
+        note=COMMON_NOTE + "pandas key normalisation replicated with numpy in the harness.",
         technique="Coq proof (rows-vector composition + slice/gather lemmas over index_ok) + three-way correspondence",
     ),
     "C07": dict(
@@ -212,7 +236,11 @@ CLAIMED = {
               "machine against the real objects op by op on random histories, repeats every query at the end and under "
               "another history, and checks earlier returned arrays are unmodified."),
         design_ref="DESIGN.md 7 (C07)",
-        note=COMMON_NOTE + "pickle round trips are mapped to copy in the state machine. " + AX,
+        note=COMMON_NOTE + "pickle round trips are mapped to copy in the state machine. The operation type of the machine has term / "
+             "ranged / phrase frequencies, docfreq, positions, BM25 scores, slicing, copies and cache warming; edismax, slop "
+             "searches and custom similarities are NOT operations of the model (they are compositions of the modelled calls "
+             "plus pure arithmetic, resp. the cache-free span search): for them purity is decided only by the check "
+             "(slop on shared views in the extra phase, edismax through C09/C10's repeated frames).",
         technique="Coq proof (cache invariant by induction over operations, with two explicit premises) + op-sequence correspondence",
     ),
     "C09": dict(
@@ -226,7 +254,12 @@ CLAIMED = {
               "the real edismax with model and spec (1e-6 relative, exact zero pattern) incl. unknown terms, mm "
               "variants, boosts, ties and field-centric queries."),
         design_ref="DESIGN.md 7 (C09)",
-        note=COMMON_NOTE + "numpy's float64 combination arithmetic is modelled over Q (compared within 1e-6). " + AX,
+        note=COMMON_NOTE + "numpy's float64 combination arithmetic is modelled over Q (compared within 1e-6). wf_query carries side "
+             "conditions that are hypotheses, not proved facts: every field has n rows, the idf table is non-negative "
+             "(wf_nonneg), tie and boosts are >= 0, the mm spec is in the range of C11, and every field keeps AT LEAST ONE "
+             "query term - zero-term fields (repaired defects D30 / D40) are covered by the check and by C09_any_similarity only. "
+             "That q_op=AND is passed on as mm='100%' is read off solr.py and replicated by the harness; "
+             "C09_and_is_100pct says 100% of n clauses is n.",
         technique="Coq proof (algebraic equality of algorithm and spec over Q) + three-way correspondence",
     ),
     "C10": dict(
@@ -239,7 +272,9 @@ CLAIMED = {
               "adjacent pair / triple is produced exactly once and shorter queries add nothing (closed). The check "
               "compares the real edismax with model and spec incl. multi-field boosts."),
         design_ref="DESIGN.md 7 (C10)",
-        note=COMMON_NOTE + "Relies on view scores using whole-frame statistics (C06). " + AX,
+        note=COMMON_NOTE + "Relies on view scores using whole-frame statistics (C06). 'Premise-free' means free of the view-score "
+             "premise: wf_query's side conditions (n rows per field, non-negative idf table, tie and boosts >= 0, mm in the "
+             "range of C11, at least one query term per field) remain hypotheses.",
         technique="Coq proof (shingle enumeration + phase algebra, view premise explicit) + three-way correspondence",
     ),
 
@@ -250,10 +285,10 @@ CLAIMED = {
               "unaltered, and the linear-time model variant the check executes is proved equal to the model. The check "
               "indexes real documents of length limit-2 .. limit+5 and 2x limit (first / middle / last in a batch, markers "
               "and phrases on both sides of the limit, a tail-only term) with truncate True/False and compares tf, df, "
-              "lengths and phrases three-way; truncate=False must raise ValueError (oracle; the general rejection theorem "
-              "is not proved)."),
+              "lengths and phrases three-way; truncate=False raises ValueError for every corpus with an over-long document "
+              "(C17_overlong_rejected: fewer than 2^28 rows and 2^61 tokens in total) and the check requires it."),
         design_ref="DESIGN.md 7 (C17)",
-        note=COMMON_NOTE + "Extraction maps Coq's quadratic List.rev to OCaml's List.rev (the only Extract Constant). No axioms.",
+        note=COMMON_NOTE + "Extraction maps Coq's quadratic List.rev to OCaml's List.rev (the only Extract Constant).",
         technique="Coq proof (definition + fast-variant equality) + three-way correspondence at the real limit",
     ),
     "C18": dict(
@@ -265,7 +300,9 @@ CLAIMED = {
               "interpreter are exercised by the check (histories with several indexes per directory, views incl. stepped "
               "slices, same-process and subprocess round trips), not modelled."),
         design_ref="DESIGN.md 7 (C18)",
-        note=COMMON_NOTE + "Assumes no file of the directory is deleted between writing and unpickling. No axioms.",
+        note=COMMON_NOTE + "Assumes no file of the directory is deleted between writing and unpickling. The theorems are about the "
+             "postings re-loaded from a directory; pickling of VIEWS (rows vector + handle) and of in-memory (data_dir=None) "
+             "arrays is not in Store.v and is decided by the check only.",
         technique="Coq proof (directory invariant) + history-based differential check incl. fresh interpreters",
     ),
     "C20": dict(
@@ -283,7 +320,9 @@ CLAIMED = {
               "from a barrier at switch intervals down to 1 microsecond against shared arrays and views, compares with "
               "serial execution on fresh pools and with the model under seeded schedules."),
         design_ref="DESIGN.md 7 (C20)",
-        note=COMMON_NOTE + "The model's schedule is unrelated to the real scheduler; atomicity of each action assumed. " + AX,
+        note=COMMON_NOTE + "The model's schedule is unrelated to the real scheduler; atomicity of each action assumed. edismax (named "
+             "in the property) and slop searches are not programs of the model: the real threads do run edismax and compare "
+             "with the serial answers, but no theorem covers them beyond their being compositions of the modelled queries.",
         technique="Coq proof (per-action invariant + good-value lemma => schedule independence) + threaded differential check",
     ),
     "C15": dict(
@@ -292,19 +331,22 @@ CLAIMED = {
               "(Props/C15.v, closed under the global context; every corpus within the limits, every batch size, phrase and "
               "slop): one natural-number entry per row; every matching document contains each of the phrase's terms; and, "
               "PARTIAL - under the proviso that the positions of the phrase's terms in the document are pairwise distinct "
-              "modulo 64 (e.g. every document of at most 64 tokens) - an exact match stays a match "
-              "(C15_exact_match_kept_partial) and, for length + slop <= 18, an in-order window of length + slop tokens "
+              "modulo 64 (e.g. every document of at most 64 tokens) AND the phrase has at most 19 terms (the property "
+              "quantifies over 2..6) - an exact match stays a match (C15_exact_match_kept_partial) and, for length + slop <= 18, an in-order window of length + slop tokens "
               "matches (C15_window_match_partial, against the executable oracle). Without the proviso both are FALSE for "
               "the model and for the code (C15_exact_match_refuted): KNOWN FINDING D27, reported by the check as "
               "KNOWN-FINDING (a violation is attributed to it only when the implementation agrees with the faithful model "
               "and the stale-bit-clearing variant Span/Span_Variant.v satisfies the clauses on that input; anything else "
-              "is a VIOLATION). Every clause is also decided on every run by the extracted clause oracle "
+              "is a VIOLATION). A SECOND failure mode lies outside the property's 2..6-term quantifier and is not a known "
+              "finding: the span machine looks at two adjacent 18-position words, so an exact phrase of 20 or more terms whose "
+              "occurrence touches three words scores 0 with slop >= 1 (Span_Exact2.witE_breaks_only_short_phrase; on the real "
+              "code a 20-term phrase starting at offset 17 gives 1 with slop 0 and 0 with slop 1). Every clause is also decided on every run by the extracted clause oracle "
               "(Span/Span_Spec.v) on implementation and model over structured near-miss corpora, as histories of "
               "several slop values on one index."),
         design_ref="DESIGN.md 7 (C15), 0 (D21-D27, D32)",
         note=COMMON_NOTE + "Slop search is documented as experimental; the check found and the repo now repairs seven defects "
              "in it (D16, D21, D22, D24, D25, D26, D32); D27 is recorded, not repaired (known_findings.json). Phrases of at "
-             "most 64 terms (longer ones are rejected by the repaired code, not modelled). No axioms.",
+             "most 64 terms (longer ones are rejected by the repaired code, not modelled).",
         technique="Coq proof (cursor / segment invariants, span-table invariant tracking the copies of the seed span) + clause "
                   "oracle and model/impl correspondence; known finding classified by a variant model",
     ),
@@ -315,10 +357,17 @@ CLAIMED = {
               "repeats) and fill values — SearchArray(list(...)), pd.concat, take / reindex / shift with fill, object round "
               "trips — has, for every term, the postings of the fresh index of the corresponding documents in their new row "
               "order, hence answers every tf / df / lengths / positions / phrase query like that fresh index (fewer than 2^28 "
-              "rows). Check = the real pandas routes vs model vs spec, incl. docfreq and default score for constructor / "
+              "rows). Literally like the fresh index ix' of those documents (Rebuild/Rebuild_Proofs3.v: both store the same "
+              "per-term postings, dictionary membership and lengths, and every query reads nothing else): EVERY phrase, "
+              "immediate repetitions and position ranges included (C19_rebuilt_phrases_like_fresh_index, closed), BM25 scores "
+              "and the statistics handed to a similarity (C19_rebuilt_scores_like_fresh_index), all 15 query kinds "
+              "(C19_rebuilt_every_query_like_fresh_index, C19_take_with_fill_every_query_like_fresh_index); not covered: views "
+              "selected FROM a rebuilt array with avoid_copies=False (record order differs; an equivalence would be needed). "
+              "Check = the real pandas routes vs model vs spec, incl. docfreq and default score for constructor / "
               "concat results."),
         design_ref="DESIGN.md 7 (C19)",
-        note=COMMON_NOTE + "pandas' concat / reindex machinery is exercised, not modelled. No axioms.",
+        note=COMMON_NOTE + "pandas' concat / reindex machinery is exercised, not modelled. In-place assignment (arr[mask] = other, "
+             "pandas where / fillna routes) is compared implementation vs spec only (no model of __setitem__).",
         technique="Coq proof (re-keying lemma + index_ok of the rebuilt index) + three-way correspondence",
     ),
 }
@@ -339,7 +388,7 @@ def main():
                 "replay_cmd_template": "./check --replay {path}",
                 "engine": "coq-model-correspondence",
                 "level_claimed": {"category": c["category"], "text": c["text"], "design_ref": c["design_ref"]},
-                "level_note": c["note"],
+                "level_note": c["note"].rstrip() + axiom_sentence(pid),
                 "technique": c["technique"],
             })
     man = {
